@@ -494,7 +494,17 @@ pub fn run(ctx: &mut Ctx) {
                     // the same wide rows twice over (every name is met again after all names were seen once)
                     1 => wide.prop_map(|r| r.iter().chain(r.iter()).cloned().collect::<Vec<RDict>>()),
                 ],
-                prop_oneof![Just(None), dict_of(cfg, value(cfg), 3).prop_map(Some)],
+                prop_oneof![
+                    4 => Just(None),
+                    4 => dict_of(cfg, value(cfg), 3).prop_map(Some),
+                    // meta as real grids carry it: markers and values under the names Haystack gives grid-level meaning to
+                    2 => prop::collection::btree_map(
+                        prop::sample::select(vec!["err", "errTrace", "errType", "incomplete", "more", "ver", "dis", "id", "hisStart", "hisEnd", "limit", "view", "mod", "empty"]).prop_map(String::from),
+                        prop_oneof![3 => Just(RVal::Marker), 1 => Just(RVal::Str("x".into())), 1 => Just(RVal::num(1.0)), 1 => Just(RVal::Bool(true))],
+                        1..4
+                    )
+                    .prop_map(Some),
+                ],
             )
                 .prop_map(|(rows, meta)| Rows { rows, meta }))
         },
